@@ -48,10 +48,53 @@ def _nontrivial(tree, feats):
         "long>=128B"})
 
 
-def _diff_key(sub, d):
+def _diff_key(sub, d, tree):
     if d["kind"] == "null-as-empty":
         return [sub, "null-as-empty"]
+    if d["kind"] == "empty-as-null":
+        return [sub, "empty-as-null", tree["t"] if tree["t"] in ("reversed", "frozen") and not d["path"] else "inner"]
     return [sub, d["leaf"], d["kind"]]
+
+
+def _map_lookup_problems(tree, obj, pv, out, top=True):
+    """'maps come back as ordered maps': every decoded key must find its own value again"""
+    if obj is None or len(out) > 2:
+        return
+    t = tree["t"]
+    if t in ("frozen", "reversed"):
+        return _map_lookup_problems(tree["of"], obj, pv, out, top)
+    if t in V.SCALARS:
+        return
+    if t == "map":
+        pairs = list(getattr(obj, "_items", []))
+        if V.contains(tree["k"], "set"):
+            # a set inside the key is indexed under the sender's element order; looking it up by the decoded
+            # (re-sorted) key is not promised
+            pairs_for_lookup = []
+        else:
+            pairs_for_lookup = pairs
+        kt = V.core(tree["k"])["t"]
+        kkind = "scalar-key" if kt in V.SCALARS else ("collection-key" if any(V.contains(tree["k"], c) for c in ("list", "set", "map")) else "composite-key")
+        for k, v in pairs_for_lookup:
+            try:
+                found = obj[k]
+                ok = found is v or found == v or (found != found and v != v)
+            except KeyError:
+                ok = False
+            if not ok:
+                out.append((["C01.map.lookup", kkind, "top-level-pv<3" if (top and pv < 3) else "v3-format"],
+                            "decoded map<%s, ...> cannot look up its own key %r" % (V.cql_name(tree["k"]), k)))
+                break
+        for k, v in pairs:
+            _map_lookup_problems(tree["k"], k, pv, out, False)
+            _map_lookup_problems(tree["v"], v, pv, out, False)
+    elif t in ("list", "set", "vector"):
+        for x in obj:
+            _map_lookup_problems(tree["of"], x, pv, out, False)
+    else:
+        subs = tree["of"] if t == "tuple" else [f[1] for f in tree["fields"]]
+        for sub, x in zip(subs, obj):
+            _map_lookup_problems(sub, x, pv, out, False)
 
 
 def interpret_roundtrip(case, ctx):
@@ -89,7 +132,7 @@ def interpret_roundtrip(case, ctx):
     ds = V.diffs(tree, value, got)
     seen = set()
     for d in ds:
-        k = _diff_key("C01.roundtrip", d)
+        k = _diff_key("C01.roundtrip", d, tree)
         if tuple(k) in seen:
             continue
         seen.add(tuple(k))
@@ -98,24 +141,33 @@ def interpret_roundtrip(case, ctx):
         return
     for kind, msg in _drv.shape_problems(tree, back):
         ctx.fail(["C01.shape", kind], msg)
+    if V.contains(tree, "map"):
+        probs = []
+        with ctx.driver(["C01.map.lookup", "raises"]):
+            _map_lookup_problems(tree, back, pv, probs)
+        for k, msg in probs:
+            ctx.fail(k, msg)
+        if probs or ctx._failures:
+            return
     # second direction: what came back encodes to the same bytes again (sets: after one normalisation)
     with ctx.driver(["C01.reencode", shp]):
         data2 = typ.to_binary(back, pv)
     if ctx._failures:
         return
-    if not V.contains(tree, "set"):
+    if not V.contains(tree, "set") and "short-tuple" not in feats:
         ctx.check(data2 == data, ["C01.reencode.stable", shp],
                   "%s pv=%d: decoded value re-encodes differently: %s -> %s" % (V.cql_name(tree), pv, data.hex()[:80], data2.hex()[:80]))
     else:
-        ctx.label("reencode:set-normalised")
+        ctx.label("reencode:normalised-once")
         with ctx.driver(["C01.reencode", shp]):
             back2 = typ.from_binary(data2, pv)
             data3 = typ.to_binary(back2, pv)
             got2 = _drv.from_driver(tree, back2)
         if ctx._failures:
             return
-        ctx.check(data3 == data2 and len(data2) == len(data), ["C01.reencode.stable", shp],
-                  "%s pv=%d: re-encoding is not stable" % (V.cql_name(tree), pv))
+        # (a set of sets is ordered by the partial order "subset", so only the size is stable there)
+        stable = (data3 == data2) if not V.contains(tree, "set") else (len(data3) == len(data2) and len(data2) == len(data) or "short-tuple" in feats)
+        ctx.check(stable, ["C01.reencode.stable", shp], "%s pv=%d: re-encoding is not stable" % (V.cql_name(tree), pv))
         ctx.check(V.same(tree, value, got2), ["C01.reencode.value", shp], "value changed on the second round trip")
 
 
